@@ -338,8 +338,78 @@ func c02R3(p *core.Prog, r *core.Report) {
 			g := core.CalleeFn(c)
 			return g != nil && g.Name() == "verifyMT"
 		}
+		// the check written in place: a comparison of the descriptor's media type with the one the
+		// body declares (both strings), whose "differ" edge leaves with an error; passing the
+		// comparison on its "agree" edge (or the edge on which the body declares none) is the check
+		inlineMT := func(from, to *ssa.BasicBlock) bool {
+			return false
+		}
+		isMTCompare := func(in ssa.Instruction) bool {
+			ifi, ok := in.(*ssa.If)
+			if !ok {
+				return false
+			}
+			cnd, _ := core.StripNot(ifi.Cond, true)
+			bo, ok := cnd.(*ssa.BinOp)
+			if !ok || (bo.Op != token.NEQ && bo.Op != token.EQL) || !isStringType(bo.X.Type()) {
+				return false
+			}
+			if _, isK := core.ConstString(bo.Y); isK {
+				return false
+			}
+			if _, isK := core.ConstString(bo.X); isK {
+				return false
+			}
+			descMT := func(v ssa.Value) bool {
+				return dependsOnField(v, modPath("types/descriptor"), "Descriptor", "MediaType")
+			}
+			if !descMT(bo.X) && !descMT(bo.Y) {
+				return false
+			}
+			// one of the successors returns an error
+			for _, sc := range in.Block().Succs {
+				if ret, isRet := core.LastInstr(sc).(*ssa.Return); isRet && len(ret.Results) > 0 && !core.IsNilConst(core.ReturnOperand(ret, len(ret.Results)-1)) {
+					return true
+				}
+			}
+			return false
+		}
+		_ = inlineMT
+		// the declared media types that are compared in place; a body that declares none has nothing to contradict
+		declared := map[ssa.Value]bool{}
+		for _, b := range fn.Blocks {
+			if ifi, ok := core.LastInstr(b).(*ssa.If); ok && isMTCompare(ifi) {
+				cnd, _ := core.StripNot(ifi.Cond, true)
+				bo := cnd.(*ssa.BinOp)
+				for _, side := range []ssa.Value{bo.X, bo.Y} {
+					if !dependsOnField(side, modPath("types/descriptor"), "Descriptor", "MediaType") {
+						declared[side] = true
+					}
+				}
+			}
+		}
+		noneDeclared := func(from, to *ssa.BasicBlock) bool {
+			ifi, ok := core.LastInstr(from).(*ssa.If)
+			if !ok {
+				return false
+			}
+			cnd, pol := core.StripNot(ifi.Cond, true)
+			bo, ok := cnd.(*ssa.BinOp)
+			if !ok || (bo.Op != token.NEQ && bo.Op != token.EQL) {
+				return false
+			}
+			k, isK := core.ConstString(bo.Y)
+			if !isK || k != "" || !declared[bo.X] {
+				return false
+			}
+			emptySucc := from.Succs[0]
+			if (bo.Op == token.EQL) != pol {
+				emptySucc = from.Succs[1]
+			}
+			return to == emptySucc
+		}
 		mtOK := true
-		seen := core.Reach{Stop: isVerify}.FromEntry(fn)
+		seen := core.Reach{Stop: func(in ssa.Instruction) bool { return isVerify(in) || isMTCompare(in) }, StopEdge: noneDeclared}.FromEntry(fn)
 		for _, ret := range okRets {
 			if seen[ret] {
 				mtOK = false
@@ -370,20 +440,71 @@ func c02R4(p *core.Prog, r *core.Report) {
 			continue
 		}
 		ok := false
-		for _, b := range fn.Blocks {
-			ifi, isIf := core.LastInstr(b).(*ssa.If)
-			if !isIf {
-				continue
+		// in the method or in an unexported helper it shares with the other implementations: on the edge
+		// on which the stored raw body is not empty (len(rawBody) > 0, != 0, …) the raw body is returned
+		isRaw := func(v ssa.Value) bool {
+			if u, isU := v.(*ssa.UnOp); isU {
+				if fa, isFA := u.X.(*ssa.FieldAddr); isFA && core.FieldName(fa.X.Type(), fa.Field) == "rawBody" {
+					return true
+				}
 			}
-			bo, isB := ifi.Cond.(*ssa.BinOp)
-			if !isB || bo.Op != token.GTR {
-				continue
-			}
-			if ret, isRet := core.LastInstr(b.Succs[0]).(*ssa.Return); isRet {
-				v := core.ReturnOperand(ret, 0)
-				if u, isU := v.(*ssa.UnOp); isU {
-					if fa, isFA := u.X.(*ssa.FieldAddr); isFA && core.FieldName(fa.X.Type(), fa.Field) == "rawBody" {
+			return false
+		}
+		for _, f := range sortedFuncs(core.Helpers(fn, 1)) {
+			for _, b := range f.Blocks {
+				ifi, isIf := core.LastInstr(b).(*ssa.If)
+				if !isIf {
+					continue
+				}
+				cnd, pol := core.StripNot(ifi.Cond, true)
+				bo, isB := cnd.(*ssa.BinOp)
+				if !isB {
+					continue
+				}
+				// len(rawBody) compared with zero
+				lenOfRaw := func(v ssa.Value) bool {
+					c, isC := v.(*ssa.Call)
+					if !isC {
+						return false
+					}
+					bi, isBi := c.Call.Value.(*ssa.Builtin)
+					return isBi && bi.Name() == "len" && isRaw(c.Call.Args[0])
+				}
+				nonEmpty := -1 // successor taken when the raw body is not empty
+				switch {
+				case lenOfRaw(bo.X) && isConstZero(bo.Y):
+					switch bo.Op {
+					case token.GTR, token.NEQ:
+						nonEmpty = 0
+					case token.EQL, token.LEQ:
+						nonEmpty = 1
+					}
+				case lenOfRaw(bo.Y) && isConstZero(bo.X):
+					switch bo.Op {
+					case token.LSS, token.NEQ:
+						nonEmpty = 0
+					case token.EQL, token.GEQ:
+						nonEmpty = 1
+					}
+				}
+				if nonEmpty < 0 {
+					continue
+				}
+				if !pol {
+					nonEmpty = 1 - nonEmpty
+				}
+				if ret, isRet := core.LastInstr(b.Succs[nonEmpty]).(*ssa.Return); isRet && isRaw(core.ReturnOperand(ret, 0)) {
+					// a helper's result must be what the method returns
+					if f == fn {
 						ok = true
+					} else {
+						for _, mr := range core.Returns(fn) {
+							for _, oc := range originCalls(core.ReturnOperand(mr, 0)) {
+								if oc.Call.StaticCallee() == f {
+									ok = true
+								}
+							}
+						}
 					}
 				}
 			}
